@@ -370,7 +370,10 @@ class World:
                 body = None; exp_code = -342
             else:
                 body = ''; exp_code = -342
-            self.conn.replies.append(None if body is None else Resp(body.encode(), 500 if shape.startswith('dict') else 200, 'Internal Server Error'))
+            # Bitcoin Core answers JSON-RPC errors with HTTP 404 (method not found) or 500, some proxies with 200 / 401 / 403 / 503:
+            # the JSON error object decides, whatever the HTTP status line says
+            status = op[4] if len(op) > 4 else (500 if shape.startswith('dict') else 200)
+            self.conn.replies.append(None if body is None else Resp(body.encode(), status, {404: 'Not Found', 200: 'OK'}.get(status, 'Internal Server Error')))
             fns = {'getbalance': lambda: p.getbalance(), 'getblock': lambda: p.getblock(b'\x01' * 32), 'getblockheader': lambda: p.getblockheader(b'\x01' * 32),
                    'getrawtransaction': lambda: p.getrawtransaction(b'\x01' * 32), 'gettransaction': lambda: p.gettransaction(b'\x01' * 32),
                    'getblockhash': lambda: p.getblockhash(5), 'sendtoaddress': lambda: p.sendtoaddress(ADDR, 5), 'call': lambda: p.call('foo', 1),
@@ -447,6 +450,7 @@ s_op = st.one_of(
     st.tuples(st.just('object'), st.sampled_from(['submitblock', 'getblock', 'getblockheader']),
               st.fixed_dictionaries({'header': gen.header_model(), 'txs': st.lists(gen.tx_model(max_in=2, max_out=2, big=False), max_size=2)})).map(list),
     st.tuples(st.just('error'), err_methods, err_shapes, codes).map(list),
+    st.tuples(st.just('error'), err_methods, st.sampled_from(['dict', 'dict', 'dict+result', 'nomessage']), codes, st.sampled_from([200, 404, 500, 401, 403, 503])).map(list),
 )
 
 
@@ -493,6 +497,7 @@ def t_amounts(ctx):
         ctx.run({'ops': ops[k:k + 40]})
     # every registered code through every wrapper
     eops = [['error', m, sh_, c] for sh_ in ('falsy-dict', 'falsy-string', 'falsy-zero', 'falsy-list', 'falsy-false', 'string', 'number', 'list', 'nocode', 'noresult') for c in (1, 2) for m in ('getbalance', 'call')] + \
+        [['error', m, 'dict', c, hs] for hs in (404, 200) for c in sorted(REG) + [-1, -32601] for m in ('getbalance', 'getblock', 'call')] + \
         [['error', m, 'dict', c] for c in sorted(REG) + [-1, -32601] for m in ('getbalance', 'getblock', 'getblockheader', 'getrawtransaction',
                                                                                     'gettransaction', 'getblockhash', 'call', 'sendrawtransaction')]
     for k in range(ctx.shard, len(eops), ctx.nshards * 20):
